@@ -163,6 +163,21 @@ class TransactionManager:
             self._transaction_waiter = create_future()
         self._transaction_waiter.set_exception(exc)
 
+    def fail_pending_calls(self, exc):
+        """The sender is gone (producer stopped): fail the calls that still
+        wait for it"""
+        if self.state in (
+            TransactionState.COMMITTING_TRANSACTION,
+            TransactionState.ABORTING_TRANSACTION,
+        ):
+            waiter = self._transaction_waiter
+            if waiter is not None and not waiter.done():
+                waiter.set_exception(exc)
+        for _, _, fut in self._pending_txn_offsets:
+            if not fut.done():
+                fut.set_exception(exc)
+        self._pending_txn_offsets.clear()
+
     def maybe_add_partition_to_txn(self, tp: TopicPartition):
         if self.transactional_id is None:
             return
